@@ -430,7 +430,10 @@ func enumerateCrashStates(d *sim.Disk, c *Case, t *sim.Tape) ([]sim.CrashSpec, [
 	}
 	rec := make([]work.OpenOpts, len(specs))
 	for i := range rec {
-		rec[i] = work.OpenOpts{GivePageSize: t.Chance(1, 2), NoFreelistSync: t.Chance(1, 3)}
+		rec[i] = work.OpenOpts{GivePageSize: t.Chance(1, 2), NoFreelistSync: t.Chance(1, 3), ReadOnly: t.Chance(1, 5), PreLoadFreelist: t.Chance(1, 2)}
+		if t.Chance(1, 4) {
+			rec[i].InitialMmapSize = 1 << 20
+		}
 		if t.Chance(1, 2) {
 			rec[i].Freelist = "hashmap"
 		} else {
@@ -492,6 +495,36 @@ func checkCrashState(e *work.Exec, img []byte, spec sim.CrashSpec, acked, inflig
 	r := work.NewExec(rpath, e.Cfg)
 	r.Cur = want
 	r.LastTxid = t
+	if ro.ReadOnly {
+		// inspection first: a read-only open of the crash image (no recovery write is possible) must already
+		// present the recovered version and pass the integrity check
+		out.probe("recovered-read-only-first", 1)
+		rdb, rerr := bolt.Open(rpath, 0600, r.BoltOptions(ro))
+		if rerr != nil {
+			return bad("open-failed", "read-only Open of the crash image: %v", rerr)
+		}
+		var v *work.Violation
+		_ = rdb.View(func(tx *bolt.Tx) error {
+			if tx.ID() != t {
+				v = bad("txid", "read-only open of the crash image is at txid %d, image decoded to %d", tx.ID(), t)
+				return nil
+			}
+			if d := model.Diff(r.Dump(tx), want); d != "" {
+				v = bad("content", "read-only open of the crash image differs from version %d: %s", t, d)
+				return nil
+			}
+			for cerr := range tx.Check() {
+				v = bad("check", "Tx.Check on the read-only opened crash image: %v", cerr)
+				break
+			}
+			return nil
+		})
+		_ = rdb.Close()
+		if v != nil {
+			return v
+		}
+		ro.ReadOnly = false
+	}
 	bo := r.BoltOptions(ro)
 	db, err := bolt.Open(rpath, 0600, bo)
 	if err != nil {
